@@ -7,7 +7,7 @@
    so a model preimage that differs from the library's in one byte finds no entry and the
    outputs disagree. *)
 From Verif Require Import Lib.Bytes Json.Ast Json.Parse Json.Print.
-From Verif Require Import Event.Redact Event.ModelC03.
+From Verif Require Import Event.Redact Event.RedactSpec Event.ModelC03.
 Open Scope N_scope.
 
 Definition nl : bytes := [10].
@@ -500,16 +500,63 @@ Definition discarded_keys_absent (ver : bytes) (sec : list bytes) : bool :=
   | None => true
   end.
 
+(* a top-level member whose name is not one the event struct or the redaction keep-lists read,
+   but that encoding/json matches to one of them (ASCII case, U+017F for s, U+212A for k):
+   the recorded findings F66 / F67 *)
+Definition lower_ascii (s : bytes) : bytes := map (fun c => if (65 <=? c) && (c <=? 90) then c + 32 else c) s.
+Definition read_names : list bytes := top_v1 ++ [bs "redacts"; bs "unsigned"].
+Definition folded_key (k : bytes) : bool :=
+  negb (mem_bytes k read_names) && mem_bytes (lower_ascii (fold_name k)) read_names.
+Definition has_folded_member (j : json) : bool := existsb folded_key (jkeys j).
+
+(* string values the sender wrote under any spelling of event_id *)
+Definition written_event_ids (j : json) : list bytes :=
+  match j with
+  | JObj m => flat_map (fun kv => if bytes_eqb (lower_ascii (fst kv)) (bs "event_id")
+                                  then match snd kv with JStr s => [s] | _ => [] end else []) m
+  | _ => []
+  end.
+
 Definition prop_untrusted (args : list bytes) : bytes :=
   match rev args, args with
-  | out :: _, ver :: _ =>
+  | out :: _, ver :: txt :: _ =>
+      let input := match parse_json txt with Some j => j | None => JNull end in
+      let sec := section (bs "parsed") out in
+      let id := match field (bs "id") sec with Some i => unpct i | None => [] end in
       if has_infix PANIC out then fail (bs "an accepted event crashes an accessor or Redact")
       else if has_infix (bs "pure=CHANGED") out then fail (bs "a read-only accessor changed the event")
       else if bytes_eqb out (bs "err") then ok
-      else if negb (discarded_keys_absent ver (section (bs "parsed") out)) then
-        fail (bs "the accepted event still carries a key that is discarded on receipt")
+      else if negb (class_untrusted ver =? 1) && mem_bytes id (written_event_ids input) then
+        bs "FAIL-SENDER-CHOSEN-ID EventID() is a value the sender wrote into the event"
+      else if negb (field_is (bs "unsigned") [] sec) then
+        fail (bs "unsigned from the wire is observable through Unsigned()")
+      else if negb (discarded_keys_absent ver sec) then
+        (if has_folded_member input
+         then bs "FAIL-FOLDED-MEMBER the accepted event carries a key that is discarded on receipt (redaction renamed a case variant of it)"
+         else fail (bs "the accepted event still carries a key that is discarded on receipt"))
       else ok
   | _, _ => bs "badargs"
+  end.
+
+(* [ver; wire text; observable]: the accessors of the parsed event are those of its own JSON() *)
+Definition own_json_fields : list bytes :=
+  [bs "id"; bs "type"; bs "sender"; bs "room"; bs "skey"; bs "content"; bs "depth"; bs "ts"; bs "prev";
+   bs "auth"; bs "redacts"].
+Definition prop_own_json (args : list bytes) : bytes :=
+  match args with
+  | [ver; txt; out] =>
+      if bytes_eqb out (bs "err") then ok
+      else if has_infix PANIC out then fail (bs "an accepted event crashes an accessor")
+      else
+        let input := match parse_json txt with Some j => j | None => JNull end in
+        match first_bad own_json_fields (section (bs "parsed") out) (section (bs "own_json") out) with
+        | None => ok
+        | Some k =>
+            if has_folded_member input
+            then bs "FAIL-FOLDED-MEMBER the accessors differ from those of the event's own JSON(): " ++ k
+            else fail (bs "the accessors differ from those of the event's own JSON(): " ++ k)
+        end
+  | _ => bs "badargs"
   end.
 
 Definition ops_C03 : list (bytes * (list bytes -> bytes)) :=
@@ -518,6 +565,7 @@ Definition ops_C03 : list (bytes * (list bytes -> bytes)) :=
     (bs "C03.variants", run_variants);
     (bs "C03.untrusted", run_untrusted);
     (bs "C03.prop.untrusted", prop_untrusted);
+    (bs "C03.prop.own_json", prop_own_json);
     (bs "C03.prop.roundtrip", prop_roundtrip);
     (bs "C03.prop.edits", prop_edits);
     (bs "C03.prop.variants", prop_variants) ].
